@@ -284,7 +284,7 @@ def jobs(tier, seed):
     add('qtop', lay={'e|r1': [1, 2, 3, 4, 5]}, target_kind='sym')
     add('qtop', lay={'e|r1': [1, 3, 5, 7, 9, 11]}, target_kind='zero')
     if tier == 'thorough':
-        add('qtop', lay={'e|r1': [1, 2, 3, 4, 5], 'e|r2': [2, 3, 4, 5, 6]}, target_kind='zero')
+        J.append(dict(harness='qtop', params=dict(lay={'e|r1': [1, 2, 3, 4, 5], 'e|r2': [2, 3, 4, 5, 6]}, target_kind='zero'), opts=dict(maxpaths=3000)))
     return J
 
 
